@@ -15,6 +15,8 @@ import sys
 import xml.etree.ElementTree as ET
 
 VERIF = "/verif"
+# where ./check is run from: a snapshot worktree of /verif (a commit) lets the checks be edited while an evaluation runs
+CHECK_ROOT = __import__("os").environ.get("VERIF_CHECK_ROOT", VERIF)
 
 
 def sh(cmd, cwd=None, env=None, timeout=1800):
@@ -75,7 +77,7 @@ def main():
         cenv = dict(os.environ, HUGR_SRC=f"{wt}/hugr-py/src", HUGR_REPO=wt, VERIF_SCRATCH=scratch)
         try:
             for p in [prop, *extra_props]:
-                rcc, oc = sh(f"./check {p}", cwd=VERIF, timeout=1800, env=cenv)
+                rcc, oc = sh(f"./check {p}", cwd=CHECK_ROOT, timeout=1800, env=cenv)
                 keys = [l.split()[1] for l in oc.splitlines() if l.strip().startswith("violation ")]
                 results[p] = {"rc": rcc, "violations": keys[:8]}
                 print(f"  check {p}: rc={rcc} {'DETECTED' if rcc == 1 else ('HARNESS-ERROR' if rcc == 2 else 'MISSED')} {keys[:4]}")
